@@ -3,7 +3,8 @@ from vlib import g1check
 
 PROPERTY = "C20"
 LEVEL = "exploration"
-RULE = ("Also a leg over managers the harness cannot instrument: linear nests (1-4 with / async with statements, 1-3 items) of standard-library managers, seven kinds of them implemented in C (threading.Lock / RLock, StringIO, BytesIO, memoryview, decimal.localcontext, file objects), the others in Python (nullcontext, suppress, closing, ExitStack, Condition, Semaphore, redirect_stdout, AsyncExitStack, aclosing), observed at every suspension point in referents mode against the statically known active set (identity, order, is_async). "
+RULE = ("Also G2 await / yield-from / async-generator chains in which some frames hold managers open (coroutine, generator and async-generator frames reached through other frames: await, asend, __anext__, async for, yield from), every frame of the extracted stack listing exactly its own open managers (referents mode). "
+        "Also a leg over managers the harness cannot instrument: linear nests (1-4 with / async with statements, 1-3 items) of standard-library managers, seven kinds of them implemented in C (threading.Lock / RLock, StringIO, BytesIO, memoryview, decimal.localcontext, file objects), the others in Python (nullcontext, suppress, closing, ExitStack, Condition, Semaphore, redirect_stdout, AsyncExitStack, aclosing), observed at every suspension point in referents mode against the statically known active set (identity, order, is_async). "
         "G1 with-programs (generator / coroutine / async generator) observed at every suspension point with "
         "set_trickery_enabled(False) on CPython 3.9-3.12. Oracle against the managers' shadow stack: every truly active "
         "manager occurs, in order, with the right obj and is_async; there is an is_exiting entry (last, right obj) iff an exit "
@@ -99,10 +100,15 @@ def run(ctx):
                                                        "race_vals": [False, True, None] if i == 0 else []} for i in range(n)]))
     from vlib import cmgrleg
     cmgrleg.run(ctx, out, "ref.")
+    from vlib import chainctxleg
+    chainctxleg.run(ctx, out, "ref.")
     return out
 
 
 def replay(ctx, data):
+    if "chain_contexts" in data["case"]:
+        from vlib import chainctxleg
+        return chainctxleg.replay(ctx, data, "ref.")
     if "stdlib_managers" in data["case"]:
         from vlib import cmgrleg
         return cmgrleg.replay(ctx, data, "ref.")
